@@ -159,7 +159,7 @@ def run_part(ctx):
     # ---- files ------------------------------------------------------------------------------
     specs = []
     base = rng.below(2 ** 30)
-    nmixed, nnodes, nsorted, nburst, ntiny = (140, 25, 50, 1, 120) if quick else (6000, 800, 2500, 6, 4000)
+    nmixed, nnodes, nsorted, nburst, ntiny = (140, 25, 50, 1, 120) if quick else (5000, 800, 2000, 4, 3000)
     k = 0
     for _ in range(nmixed):
         specs.append((base + k, 0, 4 + rng.below(40), 1)); k += 1
